@@ -23,7 +23,10 @@ ASSUMPTIONS = ["positions inside length fields are outside the property and are 
 
 def corpus():
     return ["c16 k_fs cbe=fs stride=11 hist=c0:a|c0:b|u0:a|x0:b|f0:1|c0:c@1",
-            "c16 k_db cbe=db stride=11 hist=c0:a|c0:b|u0:a|x0:b|f0:1|c0:c@1"]
+            "c16 k_db cbe=db stride=11 hist=c0:a|c0:b|u0:a|x0:b|f0:1|c0:c@1",
+            # a folder with many rows (the report streams rows through bounded channels)
+            "c16 k_many_fs cbe=fs stride=29 hist=" + "|".join("c0:s%d" % i for i in range(24)),
+            "c16 k_many_db cbe=db stride=29 hist=" + "|".join("c0:s%d" % i for i in range(24))]
 
 
 def gen_cases(rng, tier):
